@@ -172,6 +172,7 @@ def canon_unl_model(s):
 class C14(PropBase):
     pid = "C14"
     coq_dirs = ["Base", "C08", "C14"]
+    translators = []
     bins = ["c14"]
     rule = ("a case describes a whole dump: CPU architecture x platform id, 0..32 threads (duplicate / missing ids, context valid / "
             "absent / wrong flags / truncated, own stack or null descriptor), thread names (duplicates, unreadable), exception record "
